@@ -296,6 +296,11 @@ def ascending(ctx):
                 err_when_pred = (o != '0')
                 key = '%s|%s' % (fid, cb.fid.split('::')[-1])
                 flds = sorted({x[1][-1][1] for x in walk(pred) if x[0] == 'pre' and x[1] and x[1][-1][0] == 'f'})
+                uniq = 'SpeedLimit' in fid and cond[1] == 'iter.any'
+                if not flds and uniq:
+                    ctx.unproved('C16-3.ascending', key + '|identical offset pair', 'the uniqueness predicate %s compares whole elements, not the two offsets: two sections over '
+                                 'identical offsets that differ in another field are not reported' % show(pred)[:100], ctx.where(cb))
+                    continue
                 if not flds:
                     ctx.info('C16-3.ascending', key, 'predicate %s compares whole elements (derived ordering), not fields: listed, not judged' % show(pred)[:100])
                     continue
@@ -328,6 +333,9 @@ def ascending(ctx):
                     # only catenary sections must not overlap; speed restrictions may nest and overlap (their rules are order and uniqueness)
                     bad_worlds = [('overlapping (w0.end > w1.start)', [S(0, 'offset_start').lt(S(0, 'offset_end')), S(1, 'offset_start').lt(S(1, 'offset_end')),
                                                                            S(1, 'offset_start').lt(S(0, 'offset_end'))])] if 'CatPowerLimit' in fid else []
+                    if uniq:
+                        # offset pairs must be unique whatever the other fields hold
+                        bad_worlds = [('identical offset pair', [S(0, 'offset_start').eq(S(1, 'offset_start')), S(0, 'offset_end').eq(S(1, 'offset_end'))])]
                 else:
                     bad_worlds = [('equal offsets', [S(0, 'offset').eq(S(1, 'offset'))]), ('descending offsets', [S(1, 'offset').lt(S(0, 'offset'))])]
                 for wname, wf in bad_worlds:
